@@ -32,6 +32,12 @@ inductive Bias (α : Type) where
   | restr (cvs : List Nat) (p : RParams α) (s : RState α)
   | mtd (cvs : List Nat) (p : MetaParams α) (s : MetaState α)
 
+/-- `f_cvb_apply_force`: only a bias that applies forces adds its energy to the energy the engine is told
+    (`colvarmodule::calc_biases`); `applyBias off` exists for ABF (and OPES, not modelled) -/
+def Bias.applies : Bias α → Bool
+  | .abf _ p _ => p.applyBias
+  | _ => true
+
 structure Sys (α : Type) where
   clock : Clock := {}
   tfSame : Bool := false          -- `total_forces_same_step()`
@@ -120,7 +126,7 @@ def modStep (m : Sys α) (i : StepIn α) : Sys α × StepOut α :=
       (nb.1, (r.1, r.2.1, r.2.2.map fun (kv : Nat × α) => (kv.1, (n : α) * kv.2)))
     else (nb.1, (nb.2, 0.0, []))
   let biases := upd.map fun x => (x.1, x.2.1)
-  let energy := sumL (upd.map fun x => x.2.2.1)
+  let energy := sumL (upd.map fun x => if x.2.1.applies then x.2.2.1 else 0.0)
   let fb : List (Nat × α) := upd.foldl (fun acc x => x.2.2.2.foldl (fun a (kv : Nat × α) => addAssoc a kv.1 kv.2) acc) []
   let cvs := (List.range cvs.length).zip cvs |>.map fun (iv : Nat × CvSt α) =>
     let f := lookupF fb iv.1
